@@ -17,6 +17,7 @@ def main():
         env = dict(os.environ)
         env["PYTHONHASHSEED"] = "0"
         os.execve(sys.executable, [sys.executable, os.path.abspath(__file__)] + sys.argv[1:], env)
+    sys.unraisablehook = lambda u: None  # coroutines of abandoned simulated worlds are finalised late
     sys.path.insert(0, VERIF)
     sys.path.insert(0, os.environ.get("AIOFTP_SRC", "/repo/src"))
     if len(sys.argv) < 2:
